@@ -18,11 +18,12 @@
   `Properties/ErrorsProg.lean` proves to be `ShmErr.toClient` of `Model/Header.lean` on every value of `ShmErr`
   (`toClient_full`), with `ErrKind.code` the numbering of the kinds.
 
-  `x.into()` and `Default::default()` are resolved by Rust's type checker from the type of their
-  destination.  The interpreter is dynamically typed: the dictionary keeps them as `intoValue x` /
-  `defaultValue`; `into_destinations` checks the declared types of the three destinations against the
-  regenerated tables, and `ffi_from_eq_all`, `ffi_status_from_eq`, `ffi_default_eq` say what the conversions at
-  these types compute.
+  `x.into()` and `Default::default()` are resolved by Rust's type checker from the type of their destination.  Where
+  the destination is a field of a struct of the generated tables (`ctx.err = e.into()`, `clock_status: status.into()`,
+  `err: Default::default()`) the interpreter resolves them the same way, from the declared field type (core rule
+  `typedInit`), so the `From` / `Default` impl of the source is what runs.  The one place without such a type is
+  `err.write(e.into())` in `clockbound_open` (a raw out-pointer): there the dictionary keeps `intoValue e`;
+  `into_destinations` checks the declared pointee type and `ffi_from_eq_all` says what the conversion computes.
 -/
 import ClockBound.Proofs.RsErrorsFrom
 import ClockBound.Proofs.RsErrorsMisc
@@ -93,15 +94,13 @@ theorem rust_now_eq (inp : Nat → Value) (h : Value) (snap : Except ShmErrorV R
   rust_now inp h snap bound h0 h1
 
 /-- `clockbound_now(ctx, output)` on a valid context (whatever its `err` field holds) and a valid output
-    pointer: the SAME calls `nowCalls`; on success one write of `{earliest, latest, clock_status.into()}`
-    through `output` and NULL is returned; on the first error `e` (`firstErr`) `ctx.err = e.into()` and
-    `&ctx.err` is returned.  By `ffi_from_eq_all` / `into_destinations` that error is `ffiErrValue e.toClient`
-    and by `ErrorsProg.clientNow_eq_firstErr` it is the error of `clientNow snap bound`: both clients compute
-    `clientNow`. -/
+    pointer: the SAME calls `nowCalls` and the SAME model value `clientNow snap bound`: on success one write of
+    `{earliest, latest, clockbound_clock_status::from(status)}` through `output` and NULL is returned; on the first
+    error `e`, `ctx.err = clockbound_err::from(e)` and `&ctx.err` — the converted error `toClient e` — is returned. -/
 theorem ffi_now_eq (inp : Nat → Value) (h err : Value) (snap : Except ShmErrorV Record) (bound : Except ShmErrorV Bound)
     (h0 : inp 0 = snapResValue snap) (h1 : inp 1 = boundResValue bound) :
     run (ctxE inp) "ffi_lib::clockbound_now" .unit [heapPtr (ctxValue err h), outPtr "output"]
-    = ffiNowOutcome (nowCalls h snap bound) (firstErr snap bound) :=
+    = ffiNowOutcome (nowCalls h snap bound) (clientNow snap bound) :=
   ffi_now inp h err snap bound h0 h1
 
 /-- the two clients, side by side: same calls into clock-bound-shm, and outcomes that are the two
@@ -111,12 +110,8 @@ theorem now_agree (inp : Nat → Value) (h err : Value) (snap : Except ShmErrorV
     ∃ calls, calls = nowCalls h snap bound ∧
       run (ctxE inp) "ClockBoundClient::now" (clientValue h) [] = rustNowOutcome h calls (clientNow snap bound) ∧
       run (ctxE inp) "ffi_lib::clockbound_now" .unit [heapPtr (ctxValue err h), outPtr "output"]
-        = ffiNowOutcome calls (firstErr snap bound) ∧
-      clientNow snap bound = (match firstErr snap bound with
-                              | .error e => .error e.toClient
-                              | .ok b => .ok b) :=
-  ⟨_, rfl, rust_now inp h snap bound h0 h1, ffi_now inp h err snap bound h0 h1,
-    ErrorsProg.clientNow_eq_firstErr snap bound⟩
+        = ffiNowOutcome calls (clientNow snap bound) :=
+  ⟨_, rfl, rust_now inp h snap bound h0 h1, ffi_now inp h err snap bound h0 h1⟩
 
 /-- a NULL context is dereferenced (`&mut *ctx`): no defined behaviour, the interpreter has no rule -/
 theorem ffi_now_null_stuck (inp : Nat → Value) :
